@@ -210,6 +210,10 @@ func Gen(prop, tier string, seed, run uint64) Plan {
 		cfg.MaxConvs = 8 + r.IntN(10)
 		cfg.MaxFiles = 4 + r.IntN(4)
 	}
+	storm := prop == "C09" && run%7 == 6
+	if storm {
+		cfg.MinConvs, cfg.MaxConvs, cfg.MaxFiles = 12, 18, 2
+	}
 	cfg.MaxPayload = 20_000
 	cfg.MaxMsgs = 5
 	cfg.BigMsgs = false
@@ -226,7 +230,7 @@ func Gen(prop, tier string, seed, run uint64) Plan {
 	}
 	p.BgBias = []int{200, 500, 800}[r.IntN(3)]
 	p.Hold = []int{0, 100, 300}[r.IntN(3)]
-	useConv := prop == "C16" || prop == "C20" || r.IntN(2) == 0
+	useConv := prop == "C16" || prop == "C20" || storm || r.IntN(2) == 0
 	if useConv {
 		p.Converters = []string{"vconv"}
 		if r.IntN(3) == 0 {
@@ -603,6 +607,12 @@ func Gen(prop, tier string, seed, run uint64) Plan {
 	}
 	if p.Loopback {
 		mutOps = append([]Op{{C: CMut, K: "AddEndpoint", Addr: "LOOPBACK"}}, mutOps...)
+	}
+	if prop == "C09" && run%7 == 6 && len(p.Converters) > 0 {
+		// conversion storm (real-time overlap of API calls, see control.go): in the second half of the calls
+		at := len(mutOps)/2 + r.IntN(len(mutOps)/2+1)
+		st := Op{C: CMut, K: "Storm", Conv: p.Converters[0], V: 10 + r.IntN(6)}
+		mutOps = append(mutOps[:at], append([]Op{st}, mutOps[at:]...)...)
 	}
 	if prop == "C20" && (run%7 == 3 || run%7 == 5) && nf > 0 {
 		// PCAP-over-IP ingestion without a socket: packets are handed to the real
